@@ -3,7 +3,7 @@ from checks import _balls_common as common
 
 ID = "C05"
 LEVEL = "exploration"
-RUNS = {"quick": 700, "thorough": 40000}
+RUNS = {"quick": 2000, "thorough": 60000}
 WALL_CAP = {"quick": 100, "thorough": 3000}
 RULE = ("same workload as C04 (topologies x ball counts x game-action histories x physical eject outcomes); oracle: bounded "
         "liveness after faults stop - devices return to idle within 3x the timeout chain, nothing is still owed to a target "
@@ -13,7 +13,8 @@ PROBES = common.PROBES
 REAL = ["mpf.devices.ball_device.* (counters, incoming/outgoing handlers, ejectors)", "mpf.devices.playfield", "mpf.core.ball_controller",
         "mpf.modes.game", "mpf.core.switch_controller", "mpf.devices.driver", "MachineController boot"]
 STUBS = ["physical machine (sim/pinworld.py)", "platform leaf objects (SimPlatform/SimDriver)", "event loop/clock (SimLoop)"]
-ASSUMPTIONS = ["PinWorld rules (module docstring)", "liveness is judged only after faults stop, bound = 3 x sum of eject and "
+ASSUMPTIONS = ["PinWorld rules (module docstring); host stalls limited to 0.2 s; in the two-feed topology a queued request is only "
+               "held against MPF when a ball sits upstream of the requesting device", "liveness is judged only after faults stop, bound = 3 x sum of eject and "
                "ball-missing timeouts of the topology + 30 s", "a broken device (max_eject_attempts exhausted) is excluded, per statement"]
 STATE_ABSTRACTION = "(topology, per-device (balls, state), playfield.balls, game running)"
 
